@@ -33,6 +33,25 @@ def datasets(rng, n_random):
     out.append(('two-rows', np.array([[.2, .3], [.6, .8]])))
     out.append(('two-rows-disc', np.array([[.2, .8], [.6, .3]])))
     out.append(('edge-values', np.array([[0., 0.], [1., 1.], [.5, .25], [.25, .5]])))
+    # nearly (anti-)monotone tables: |tau| in (0.97, 0.995), Frank theta in the hundreds but well inside the solver's box
+    for n in (16, 26):
+        u = (np.arange(n) + 0.5) / n
+        v = u.copy()
+        v[[n // 2, n // 2 + 1]] = v[[n // 2 + 1, n // 2]]
+        out.append((f'nearly-monotone-n{n}', np.column_stack([u, v])))
+        out.append((f'nearly-antimonotone-n{n}', np.column_stack([u, 1 - v])))
+    # two tables whose Kendall taus agree to 4 decimals but are not equal (one neighbouring exchange), fitted one after the other
+    from scipy.stats import norm as _norm
+    rs = np.random.RandomState(1234)
+    z = rs.multivariate_normal([0, 0], [[1, .7], [.7, 1]], 400)
+    X1 = _norm.cdf(z)
+    o = np.argsort(X1[:, 1])
+    out.append(('close-tau-0', X1))
+    ks = [k for k in range(60, 340, 3) if X1[o[k], 0] < X1[o[k + 1], 0]][:4]      # concordant neighbours: each exchange lowers tau by 2.5e-5
+    for j, k in enumerate(ks):
+        Xn = out[-1][1].copy()
+        Xn[[o[k], o[k + 1]], 1] = Xn[[o[k + 1], o[k]], 1]
+        out.append((f'close-tau-{j + 1}', Xn))
     for i in range(n_random):
         n = int(rng.integers(2, 40))
         rho = float(rng.uniform(-0.95, 0.95))
@@ -105,6 +124,82 @@ def parse_fit_out(s):
     return ('unparsed', s)
 
 
+def debye_tau(theta):
+    """Kendall tau of the Frank copula with parameter theta, computed independently of the library (Debye function D1 by
+    quadrature from 0): tau = 1 - 4/theta * (1 - D1(theta)), D1(x) = (1/x) int_0^x t/(e^t - 1) dt, D1(-x) = D1(x) + x/2"""
+    from scipy import integrate
+    a = abs(float(theta))
+    d1 = integrate.quad(lambda t: t / np.expm1(t) if t > 0 else 1.0, 0.0, a, epsabs=1e-13, epsrel=1e-13, limit=400)[0] / a
+    if theta < 0:
+        d1 = d1 + a / 2
+    return 1.0 - 4.0 / theta * (1.0 - d1)
+
+
+def calibration_why(fam, X):
+    """the property's statement on the real class, with an INDEPENDENT calibration (replay entry point): after fit(X) tau is
+    Kendall's tau-b and theta the family's calibration of it.  Returns None or a description.  Regions of the known findings
+    (Frank |theta| at the solver bound, F14c/d; -0.0034 < tau < 0, F33; Clayton tau in {0, 1}, F14a/b) are left to their own oracles."""
+    from copulas.bivariate import Bivariate
+    from scipy import stats
+    X = np.asarray(X, dtype=float)
+    c = Bivariate(copula_type=fam)
+    try:
+        with np.errstate(all='ignore'):
+            c.fit(X.copy())
+    except Exception:
+        return None
+    tau = float(stats.kendalltau(X[:, 0], X[:, 1])[0])
+    if not (c.tau == tau or abs(c.tau - tau) <= 1e-12):
+        return f'tau = {c.tau!r} but Kendall tau-b of the data is {tau!r}'
+    th = float(c.theta)
+    if fam == 'clayton' and 0 < tau < 1:
+        want = 2 * tau / (1 - tau)
+        if abs(th - want) > 1e-9 * (1 + abs(want)):
+            return f'Clayton theta = {th!r}, calibration 2 tau/(1 - tau) of tau = {tau!r} is {want!r}'
+    if fam == 'gumbel' and 0 <= tau < 1:
+        want = 1 / (1 - tau)
+        if abs(th - want) > 1e-9 * (1 + abs(want)):
+            return f'Gumbel theta = {th!r}, calibration 1/(1 - tau) of tau = {tau!r} is {want!r}'
+    if fam == 'frank' and 0.01 < abs(tau) < 0.9944 and 0 < abs(th) < 600:
+        t = debye_tau(th)
+        if abs(t - tau) > 1e-6:
+            return (f'Frank theta = {th!r} has theoretical Kendall tau {t!r} (Debye function, independent quadrature), but the data tau is '
+                    f'{tau!r} (difference {abs(t - tau):.3g})')
+    return None
+
+
+def calibration_replay(seed, n_random, fam, name):
+    """replay entry point: regenerate the run's tables and fit them in the run's order up to (name, fam); returns that table's verdict"""
+    ds = datasets(np.random.default_rng(seed + 10), n_random)
+    for nm, X in ds:
+        for f in FAMS:
+            why = calibration_why(f, X)
+            if (nm, f) == (name, fam):
+                return why
+    return 'table not found'
+
+
+def calibration_search(ctx, ds, n_random=0):
+    """always runs (also after a broken translation): independent calibration oracle on every table, fitted in sequence in
+    this process (so a process-wide cache keyed on a rounded tau is exposed by the close-tau pair)"""
+    worst = 0.0
+    for name, X in ds:
+        for fam in FAMS:
+            try:
+                why = calibration_why(fam, X)
+            except Exception as ex:
+                why = f'oracle raised {type(ex).__name__}: {str(ex)[:100]}'
+            ctx.obligation(f'oracle:calibration:{fam}:{name}', why is None, 'correspondence', why or '')
+            ctx.case(('calibration', fam, name), None)
+            if why:
+                ctx.violation(f'search:calibration:{fam}:{name.split("-rho")[0]}', f'{fam}.fit on dataset {name}: {why}',
+                              {'family': fam, 'dataset': name, 'X': np.asarray(X).tolist(),
+                               'repro': ('from vf.props import C10\n'
+                                         f'why = C10.calibration_replay({int(ctx.seed)}, {n_random}, {fam!r}, {name!r})   # the run\'s tables, in order\n'
+                                         'print(why)\nassert why is None\n')})
+    return worst
+
+
 def repro(fam, X):
     return (f"import numpy as np\nfrom copulas.bivariate import Bivariate\nc=Bivariate(copula_type='{fam}')\n"
             f"c.fit(np.array({X.tolist()!r}))\nprint('tau',c.tau,'theta',c.theta)\nc.check_fit()\n"
@@ -137,10 +232,16 @@ def run(ctx):
              'edge tables plus random Gaussian-copula tables, a third rounded to one decimal for heavy ties) x 3 families; the implementation '
              'fit outcome (tau, theta | error class) is compared with vm_compute of Model.BivCtl.fit_ctl on the exact rational data and the '
              'captured kendalltau value; Frank theta (least_squares oracle) is captured and its tau equation certified by Interval')
+    rng = np.random.default_rng(ctx.seed + 10)
+    n_random = 12 if quick else 150
+    ds = datasets(rng, n_random)
+    ctx.rule('witness search (always, also after a broken translation): tau recomputed with scipy, theta compared with the closed-form '
+             'calibration (Clayton, Gumbel) or, for Frank, its theoretical tau by an independent Debye quadrature (|difference| <= 1e-6); '
+             'tables are fitted in sequence in one process and include nearly (anti-)monotone tables (|tau| 0.98..0.994) and a pair of '
+             'tables whose taus agree to 4 decimals')
+    calibration_search(ctx, ds, n_random)
     if bad:
         return
-    rng = np.random.default_rng(ctx.seed + 10)
-    ds = datasets(rng, 12 if quick else 150)
     exprs, meta = [], []
     frank_goals = []
     for name, X in ds:
@@ -195,10 +296,19 @@ def run(ctx):
         n_ok += 1
         # full-strength statement: a fit that returned normally must leave a usable model
         if res[0] == 'ok':
+            # the CDF probe applies where a CDF value is promised: inside the parameter range of C06 (|tau| <= 0.8), and where the
+            # stored theta is no calibration at all (non-finite, or Frank's theta at the least_squares box ln(DBL_MAX)).  A correctly
+            # calibrated Frank theta in the hundreds (|tau| > 0.95) overflows in cumulative_distribution; that is outside C10 and
+            # outside the stated range of C06-C09, and was a false alarm of this check when the nearly-monotone tables were added.
+            th_ = res[2]
+            in_c06 = (fam == 'frank' and abs(th_) <= 18.2) or (fam == 'clayton' and th_ <= 8) or (fam == 'gumbel' and th_ <= 5)
+            probe = in_c06 or not np.isfinite(th_) or (fam == 'frank' and abs(th_) > 700)
             try:
                 c.check_fit()
-                with np.errstate(all='ignore'):
-                    v = float(np.asarray(c.cumulative_distribution(np.array([[.5, .5]])))[0])
+                v = 0.25
+                if probe:
+                    with np.errstate(all='ignore'):
+                        v = float(np.asarray(c.cumulative_distribution(np.array([[.5, .5]])))[0])
                 usable = (-1e-9 <= v <= 0.5 + 1e-9)
                 why = f'cdf(.5,.5)={v}'
             except Exception as ex:
